@@ -33,7 +33,7 @@ def gates(tier):
         "min_decided": {a: 300 * k for a in APIS[:5]} | {APIS[5]: 1500 * k},
         "shapes": {c: 5 * k for c in ["eps_arc", "multi_initial", "nondeterministic", "acyclic", "cyclic", "dead_state",
                                       "unreachable_state", "sr:Q", "sr:Float", "empty_language", "zero_weight_arc", "tiny_weight", "gadget:globally-normalised",
-                                      "cyclic-deterministic", "cyclic-twins", "scale:big-automaton"]},
+                                      "cyclic-deterministic", "cyclic-twins", "scale:big-automaton", "scale:few-states-wide-alphabet"]},
         "min_events": {"determinize.subset_states": 500 * k},
         "min_hashseeds": 2,
     }
@@ -44,6 +44,31 @@ def gen_case(rng, spec):
 
     if rng.random() < 0.15:
         return gen_cyclic_terminating(rng)
+    if rng.random() < 0.03:
+        # scale: FEW states but many symbols: 4-6 states in layers of width 2 over 8-15 symbols with pairwise different
+        # weight ratios - far more weighted subsets (support + residual weights) than 2^n plain subsets
+        from fractions import Fraction as Fr
+
+        alphabet = [chr(97 + i) for i in range(rng.randint(8, 15))]
+        layers = rng.randint(1, 2)
+        n = 1 + 2 * layers + (1 if rng.random() < 0.5 else 0)
+        arcs = []
+        prev = [0]
+        for L in range(layers):
+            cur = [1 + 2 * L, 2 + 2 * L]
+            for i in prev:
+                for k, a in enumerate(alphabet):
+                    if rng.random() < 0.85:
+                        arcs.append([i, a, cur[0], Fr(k + 1, 64)])
+                        arcs.append([i, a, cur[1], Fr(len(alphabet) + 1 - k, 64) if rng.random() < 0.8 else Fr(1, 128)])
+            prev = cur
+        stop = [[q, Fr(rng.randint(1, 4), 4)] for q in prev]
+        if n > 1 + 2 * layers:
+            arcs += [[prev[0], alphabet[0], n - 1, Fr(1, 8)], [prev[1], alphabet[0], n - 1, Fr(1, 16)]]
+            stop.append([n - 1, Fr(1)])
+        m = {"n": n, "names": GA.state_names(rng, n, alphabet, rng.choice(["int", "str", "tuple"])), "alphabet": alphabet,
+             "start": [[0, Fr(1)]], "stop": stop, "arcs": arcs, "big": True}
+        return {"m": m, "R": rng.choice(["Q", "Q", "Float"]), "maxlen": 2, "sseed": rng.randrange(1 << 30), "wide": True}
     if rng.random() < 0.05:
         # scale: 8-14 states, 6-10 symbols, a state with many arcs, 3+ initial / final states
         return {"m": GA.gen_big_wfsa(rng, acyclic=rng.random() < 0.6), "R": rng.choice(["Q", "Q", "Float"]), "maxlen": 2,
@@ -161,7 +186,9 @@ def run_case(case, ctx):
     ctx.sample({"case": case, "classes": sorted(cls)})
     Din = lib.dense_from_case(m, "Q")
     strings = GA.case_strings(m, case["maxlen"], case.get("sseed", 0))
-    if m.get("big"):
+    if case.get("wide"):
+        ctx.shape["scale:few-states-wide-alphabet"] += 1
+    elif m.get("big"):
         ctx.shape["scale:big-automaton"] += 1
     cls_ = field_wfsa.WFSA if R == "Float" else base.WFSA
     ok, A = ctx.call(APIS[0], case, lib.build_wfsa, m, R, cls_)
